@@ -107,7 +107,8 @@ def op_line(o):
     elif k == 'read': a = [ref_h(o['i']), ref_h(o['h']), o['size'], o['off'], o['flags']]
     elif k == 'write': a = [ref_h(o['i']), ref_h(o['h']), o['off'], hx(o['data']), o['flags'], o['fuse_flags']]
     elif k == 'readlink': a = [ref_h(o['i'])]
-    elif k == 'readdir': a = [ref_h(o['i']), ref_h(o['h']), o['size'], o['off']]
+    elif k in ('readdir', 'readdirplus'): a = [ref_h(o['i']), ref_h(o['h']), o['size'], o['off']]
+    elif k == 'fsyncdir': a = [ref_h(o['i']), ref_h(o['h']), o.get('datasync', 0)]
     elif k == 'setxattr': a = [ref_h(o['i']), hx(o['name']), hx(o['value']), o['flags']]
     elif k == 'getxattr': a = [ref_h(o['i']), hx(o['name']), o['size']]
     elif k == 'listxattr': a = [ref_h(o['i']), o['size']]
@@ -154,7 +155,7 @@ def op_coq(o):
     if k == 'access': return '(SAccess %s %d %d %d)' % (ref_c(o['i']), o['mask'], o['uid'], o['gid'])
     raise ValueError(k)
 
-MODELLED = lambda o: o['op'] != 'readdir'
+MODELLED = lambda o: o['op'] not in ('readdir', 'readdirplus', 'fsyncdir')
 
 # ------------------------------------------------------------------ harness output
 def parse_kv(s):
@@ -219,7 +220,7 @@ def cfg_coq(c):
     """c: effective configuration dict"""
     b = lambda k: 'true' if c.get(k) else 'false'
     cache = {'never': 0, 'metadata': 1, 'auto': 2, 'always': 3}[c.get('cache', 'auto')]
-    return '(mkCfg %s %s %s %s %s %s %d %s)' % (b('do_import'), b('no_open'), b('no_opendir'), b('writeback'), b('killpriv_v2'), b('xattr'), cache, b('inode_file_handles'))
+    return '(mkCfg %s %s %s %s %s %s %d %s %s)' % (b('do_import'), b('no_open'), b('no_opendir'), b('writeback'), b('killpriv_v2'), b('xattr'), cache, 'false' if c.get('no_direct_io') else 'true', b('inode_file_handles'))
 
 def effective_cfg(c, standalone=True):
     """what PassthroughFs::new + init make of the requested configuration (the harness offers exactly
